@@ -460,6 +460,8 @@ class Interp:
             if impl is not fi:
                 return self.call_function(impl, args, kwargs, closure=closure)
         node = fi.node
+        if closure is None and fi.cls is not None and getattr(fi.cls, 'closure_env', None) is not None:
+            closure = fi.cls.closure_env  # a method of a class defined inside a function
         # the body runs in its own scope in front of the enclosing function's live scope (a closure reads the variables as they
         # are now; `nonlocal` writes go there)
         env: dict = _Scope({}, closure) if closure is not None else {}
@@ -1246,6 +1248,20 @@ class Interp:
         if self._gen_stack:
             self._gen_stack[-1].extend(vals)
         return None
+
+    def st_ClassDef(self, st, env, mi):
+        """A class defined inside a function: its methods see the variables of that function."""
+        module = self.call_stack[-1].module if self.call_stack else mi.name
+        ci = ClassInfo(module, st.name, st, bases=[ast.unparse(b) for b in st.bases])
+        for sub in st.body:
+            if isinstance(sub, ast.FunctionDef):
+                decs = [ast.unparse(d) for d in sub.decorator_list]
+                if any(d.endswith('.setter') for d in decs):
+                    ci.methods[sub.name + '.setter'] = FuncInfo(module, f'{st.name}.{sub.name}.setter', sub, ci)
+                    continue
+                ci.methods[sub.name] = FuncInfo(module, f'{st.name}.{sub.name}', sub, ci)
+        ci.closure_env = env  # type: ignore[attr-defined]
+        env[st.name] = ClassRef(ci)
 
     _DECORATORS_WITH_THEIR_OWN_HANDLING = ('contextmanager', 'staticmethod', 'classmethod', 'property', 'overload', 'abstractmethod', 'singledispatch')
 
